@@ -212,6 +212,8 @@ def main(ck):
         "store) around the real WriteToRaft / readCommitFromRaft / dealCommitData / RaftNode / RaftDiskStorage code",
     ]
     ck.cov["trusted_base"] = ["Coq 8.16.1 kernel + vm_compute (Examples, Refuted witnesses, case evaluation)",
+                              "truncation-decision tie: scripted raft.Node (Status only) and meta liveness, tolerance clock moved "
+                              "through the hook VerifAgeTolerateTimer; append-vs-snapshot tie: etcd/raft RawNode v3.5.10 as shipped",
                               "Print Assumptions: closed under the global context (no axioms)",
                               "Go harness cmd/c05 (fake raft driver, recording storage), python driver props/C05/run.py"]
     ck.coq_audit(["C05"])
@@ -429,12 +431,20 @@ def main(ck):
                       "restart-replay scenarios on the real RaftDiskStorage/RaftNode (small logs and logs crossing the 30000-entry "
                       "file boundary with ClearEntryLog indexes around the member's snapshot index), ack-path scenarios (local writes "
                       "with overwrites, foreign entries with colliding propose ids, partial commits, gated applies, restarts, apply "
-                      "failures). non-trivial: rotation that succeeds, any codec case, creation with >1 group, replay with a "
-                      "truncation or commit > applied, ack scenario with a local write and a commit; distinct = different inputs+outputs")
+                      "failures), truncation-decision sequences (5-14 rounds of the real deleteEntryLog on a real three-file store: "
+                      "outages/recoveries of either follower, leadership changes, clock advances of 0..3T+3 units around the tolerate "
+                      "time T, Match and snapshot indexes around the file boundaries), append-vs-snapshot probes through etcd RawNode "
+                      "on real stores of 60000-60200 entries (untruncated, first file deleted, current file exactly full; follower "
+                      "positions on both sides of every file boundary) with SlotGe/Term lookups, read-target selection "
+                      "(GetAliveShards on one replica group, generated statuses and shard order), and seven scenarios on a real "
+                      "3-node raft group. non-trivial: rotation that succeeds, any codec case, creation with >1 group, replay with a "
+                      "truncation or commit > applied, ack scenario with a local write and a commit, a truncation sequence with a "
+                      "proposal or a running tolerance period, every send/group case, a selection that reads a shard; "
+                      "distinct = different inputs+outputs")
     ck.cov["kind_histogram"] = kinds
     ck.cov["model_variant_codes"] = {str(k): codes.count(k) for k in (0, 1, 2, 3, None)}
     ck.cov["samples"] = [{k: v for k, v in c.items() if k not in ("replayed",)} for c in
-                         [next(c for c in cases if c["kind"] == kk) for kk in ("rot", "dw", "replay", "ack") if any(c["kind"] == kk for c in cases)]]
+                         [next(c for c in cases if c["kind"] == kk) for kk in ("rot", "dw", "replay", "ack", "trunc", "readsel") if any(c["kind"] == kk for c in cases)]]
     if cth is not None:
         cth.join()
         if getattr(ck, "c05_history_accepted", False):
